@@ -176,6 +176,14 @@ def _edits_for(fn_node, src_lines):
             elif node.lower is None and node.upper is not None and node.step is None:
                 up = src_lines[node.lineno - 1][node.upper.col_offset:node.upper.end_col_offset]
                 yield (node.lineno, node.col_offset, node.end_col_offset, up + ":", f"slice :{up} -> {up}:")
+    # ---- third family: statement deletion (single-line assignments, augmented assignments, expression statements)
+    if os.environ.get("GTV_MUT_SDL"):
+        for node in ast.walk(fn_node):
+            if isinstance(node, (ast.Assign, ast.AugAssign, ast.Expr)) and node.lineno == node.end_lineno:
+                if isinstance(node, ast.Expr) and isinstance(node.value, ast.Constant):
+                    continue        # docstring
+                text = src_lines[node.lineno - 1][node.col_offset:node.end_col_offset]
+                yield (node.lineno, node.col_offset, node.end_col_offset, "pass", f"deleted {text.strip()[:60]}")
     _ = doc
 
 
@@ -203,6 +211,8 @@ def gen(per_function=4, seed=1, exclude=None, out='mutants.json'):
             # de-duplicate and sample
             uniq = {}
             for e in eds:
+                if os.environ.get("GTV_MUT_SDL") and not e[4].startswith("deleted"):
+                    continue
                 if exclude and (rel, e[0], e[1], e[2], e[3]) in exclude:
                     continue
                 uniq[(e[0], e[1], e[2], e[3])] = e
@@ -212,7 +222,7 @@ def gen(per_function=4, seed=1, exclude=None, out='mutants.json'):
             chosen, kinds = [], {}
             for e in eds:
                 kind = e[4].split()[0]
-                if kinds.get(kind, 0) >= 2:
+                if kinds.get(kind, 0) >= (10 ** 6 if kind == "deleted" else 2):
                     continue
                 kinds[kind] = kinds.get(kind, 0) + 1
                 chosen.append(e)
@@ -329,6 +339,20 @@ if __name__ == "__main__":
         gen(int(sys.argv[2]) if len(sys.argv) > 2 else 6, seed=2, exclude=prev, out="mutants2.json")
     elif cmd == "run":
         run(parallel=int(sys.argv[2]) if len(sys.argv) > 2 else 4, max_obs=int(sys.argv[3]) if len(sys.argv) > 3 else 24)
+    elif cmd == "gen4":
+        os.environ["GTV_MUT_SDL"] = "1"
+        prev = set()
+        for nm in ("mutants.json", "mutants2.json"):
+            p1 = os.path.join(SCR, nm)
+            if os.path.exists(p1):
+                for m in json.load(open(p1)):
+                    prev.add((m["file"], m["line"], m["col"], m["end_col"], m["new"]))
+        gen(int(sys.argv[2]) if len(sys.argv) > 2 else 6, seed=4, exclude=prev, out="mutants4.json")
+    elif cmd == "run4":
+        run(parallel=int(sys.argv[2]) if len(sys.argv) > 2 else 4, max_obs=int(sys.argv[3]) if len(sys.argv) > 3 else 24,
+            name="mutants4.json", results="results4.jsonl")
+    elif cmd == "report4":
+        report("mutants4.json", "results4.jsonl")
     elif cmd == "run2":
         run(parallel=int(sys.argv[2]) if len(sys.argv) > 2 else 4, max_obs=int(sys.argv[3]) if len(sys.argv) > 3 else 24,
             name="mutants2.json", results="results2.jsonl")
